@@ -950,4 +950,29 @@ example : Adm (behOf [("st1", "OSError"), ("st1.errno", "ENAMETOOLONG")]) ∧
       = .resp := by
   refine ⟨by decide, ⟨by decide, by decide⟩, by decide, by decide, by decide, by decide⟩
 
+/-- **tie to the source, second half**: besides the call sites of the model (`source_pinned`), the anchored
+functions call exactly these other things - constructors of baize's own exception and event classes, methods of
+`str` / `bytes` / `list` / `dict` / `re.Match`, builtins, and methods that are anchored under their own name.  The
+model takes each of them for TOTAL on the values that reach it; this list is that assumption, spelled out.  A new
+callee in an anchored function (`unquote`, `astimezone`, a cache decorator's wrapper, ...) is a new way to raise that
+the model does not know: it changes the regenerated list and this theorem stops checking. -/
+theorem other_callees_pinned : Gen.Errors.otherCallees = [
+    "attr:S_ISDIR", "attr:S_ISREG", "attr:__class__", "attr:__init__", "attr:__next__", "attr:_receive",
+    "attr:_replace", "attr:append", "attr:aseek", "attr:awrite", "attr:cast", "attr:clear", "attr:count",
+    "attr:done", "attr:end", "attr:endswith", "attr:escape", "attr:extend", "attr:find", "attr:findall",
+    "attr:fullmatch", "attr:generate_etag", "attr:get", "attr:geturl", "attr:group", "attr:groupdict",
+    "attr:handle_404", "attr:handle_all", "attr:handle_several_ranges", "attr:handle_single_range",
+    "attr:items", "attr:join", "attr:last_newline", "attr:lower", "attr:partition", "attr:pop", "attr:read",
+    "attr:receive_data", "attr:rpartition", "attr:rsplit", "attr:seek", "attr:set_response_headers",
+    "attr:sort", "attr:split", "attr:splitlines", "attr:start", "attr:startswith", "attr:strip", "attr:sub",
+    "attr:write", "expr:Call", "name:Address", "name:ClientDisconnect", "name:Data", "name:Epilogue",
+    "name:Field", "name:File", "name:FormData", "name:HTTPException", "name:MalformedJSON",
+    "name:MalformedMultipart", "name:MalformedRangeHeader", "name:PlainTextResponse", "name:Preamble",
+    "name:RangeNotSatisfiable", "name:RequestEntityTooLarge", "name:Response", "name:RuntimeError",
+    "name:UnsupportedMediaType", "name:ValueError", "name:_percent_encode", "name:any", "name:bytearray",
+    "name:bytes", "name:cast", "name:file_factory", "name:formatdate", "name:isinstance", "name:len",
+    "name:max", "name:response", "name:send_http_body", "name:send_http_start", "name:start_response",
+    "name:str", "name:super"] := by
+  decide
+
 end Baize.Errors
